@@ -60,7 +60,11 @@ impl Future for Fut {
             if SAVE_WAKER && SAVED_WAKER.is_none() {
                 SAVED_WAKER = Some(cx.waker().clone());
             }
-            if INJECT != 0 && !INJECTED {
+            if INJECT == 4 && POLLS <= 2 {
+                // one wake during the first poll and one more during the re-poll it causes
+                INJECTED = true;
+                acc::wake_by_ref::<Fut, S, ()>(TASK_PTR);
+            } else if INJECT != 0 && !INJECTED {
                 INJECTED = true;
                 // wakes are issued through the real wake code directly (acc::wake_by_ref -> Task::wake_by_ref), not
                 // through the Waker's function-pointer table (CBMC would consider `run` itself as a possible target)
@@ -369,6 +373,28 @@ fn c13_wake_during_poll_repolls_w3x2() {
 #[kani::unwind(5)]
 fn c13_wake_during_poll_repolls_twice() {
     wake_during_poll::<2, 1, 3>();
+}
+
+/// A wake during the first poll AND another one during the re-poll it causes: the task is still being polled by the same
+/// Runnable during the re-poll, so the second wake must lead to a third poll by that Runnable, never to a second Runnable.
+#[kani::proof]
+#[kani::unwind(6)]
+fn c13_wake_during_repoll() {
+    let (p, r, c, ptr) = fresh();
+    set_state(ptr, mk(true, false, 2, 1));
+    unsafe {
+        READY_AT = 0;
+        INJECT = 4;
+    }
+    r.run();
+    unsafe {
+        assert!(SCHED_CALLS == 0, "woken during the re-poll: must poll again, not schedule a second Runnable");
+        assert!(POLLS == 3, "each wake-up issued during a poll leads to one more poll");
+        assert!(FUT_DROPS == 0 && OUT_DROPS == 0);
+    }
+    let s = state_of(ptr);
+    assert!(polling(s) && !closed(s) && wakes(s) == 0 && refs(s) == 2);
+    core::mem::forget((p, c));
 }
 
 /// A cancellation issued WHILE the task is being polled: no further poll, the Runnable drops the future once.
